@@ -27,9 +27,13 @@ type C11Scenario struct {
 
 var rejectedInputs = []string{
 	"", "(1+", "1 +", "[1,2", "{'a':1", "'abc", "`x{1", "1 2 @", "@", "）", "1 + * 2", "a(1+1+23=3", "x = ", "if 1 {", "while", "func f(",
+	"(1 +\n\n2 @\n3)", "(1 +\n2 +\n\n\n3 @\n4)", "(1 +\n", "[1,\n\n\n 2,\n 3 @]", "(\r\n\r\n1 +\r\n @)", "{'a':\n\n\t\t1 @}", "(力量 +\n\n  敏捷 @ 3)", "[1,\n2,\n\n3,\n\n\n4 4]", "(\n\n\n\n)", "`{\n\n1 +}`",
 	"力量 + ", "1 +\n  2 +\n  (3", "'多字节文本' + (", "abc\ndef\n  ghi + ", "\n\n1 +", "x = 1\ny = (2", "# bad", "1 ? ", "[1..", "a.b.", "d +",
 	strings.Repeat("x", 70) + " + (", strings.Repeat("长", 30) + " + ", "1 +" + strings.Repeat(" ", 80), "\t\t(", "\"\\", "1d", "^st",
 }
+
+// lazyTexts compile differently under different flag settings (dice families, bitwise, statements).
+var lazyTexts = []string{"5a10 + 1", "b2", "p1 + 1", "4 | 2", "3c7 + 2", "f + 3", "2d", "if 1 { 2 } else { 3 }", "3a8k6", "1 & 3", "b + p", "2c5m6", "d + 1", "x1 = 2; x1 * 3", "[1,2,3].sum()"}
 
 func c11GenMode(mode string) func(seed uint64, tier string) any {
 	return func(seed uint64, tier string) any {
@@ -42,6 +46,10 @@ func c11GenMode(mode string) func(seed uint64, tier string) any {
 			cfg.OpLimit = 20000
 			cfg.NoStmts = false
 			cfg = cfg.Tame()
+			if mode == "c11" && r.Chance(1, 3) {
+				cfg.DefaultSide = Pick(r, []string{"20", "6", "f + 10", "b1", "2 | 5", "3a9 + 4", "面数 ?? 6"})
+				cfg.NoND = false
+			}
 			if mode == "c11" && r.Chance(1, 3) {
 				cfg.Seeded = false
 			}
@@ -78,6 +86,11 @@ func c11GenMode(mode string) func(seed uint64, tier string) any {
 					src = g.Program(r.Range(1, 3))
 				}
 				ts.Cmds = append(ts.Cmds, Cmd{Kind: "run", Src: src})
+				if mode == "c11" && r.Chance(1, 4) {
+					// lazily compiled text (RunExpr): the same few texts are used by VMs with different
+					// flags, in this scenario and in others executed by the same process
+					ts.Cmds = append(ts.Cmds, Cmd{Kind: "runexpr", Src: Pick(r, lazyTexts), Local: r.Bool()})
+				}
 			}
 			sc.Tasks = append(sc.Tasks, ts)
 		}
